@@ -161,11 +161,11 @@ Lemma built_writable pw j : wf_job pw j -> sp_name (j_spec j) <> [] ->
 Proof.
   intros (WS & WC & WW & WF) NE EX PH.
   destruct WS as (S1 & S2 & S3 & S4 & S5 & S6 & S7 & S8 & S9). destruct WC as (K & _ & _).
-  unfold fits in WF. destruct WF as (F1 & F2 & _ & _ & F5 & F6).
+  unfold fits in WF. destruct WF as (F1 & F2 & _ & _ & F6).
   destruct j as [cfg ctx sp wcuts]. unfold phc_job, PipelineFacts.build_job in *. cbn [j_cfg j_ctx j_spec j_wcuts] in *.
   set (cfg' := eff_cfg cfg (sp_kind sp)) in *.
   assert (SC : strict_ctx (with_sample ctx)) by (split; [exact K|split; reflexivity]).
-  unfold writable_normal, Pipeline.build_normal in *. cbv zeta in *. fold cfg' in F2, F5 |- *.
+  unfold writable_normal, Pipeline.build_normal in *. cbv zeta in *. fold cfg' in F2 |- *.
   cbn [n_hdr n_phsf n_extra n_data n_meta n_xattrs m_raw_size m_compressed m_ctime m_mtime m_atime m_perm
        f_major f_minor f_name f_enc f_mode] in *.
   split; [reflexivity|]. split; [reflexivity|]. split; [apply valid_name_sanitised; assumption|]. split; [exact F1|].
@@ -174,10 +174,10 @@ Proof.
     - reflexivity.
     - split; [reflexivity|]. split; [apply PH; reflexivity|exact F2].
     - split; [reflexivity|]. split; [apply PH; reflexivity|exact F2]. }
-  split; [exact EX|]. split; [exact F5|]. split; [reflexivity|].
+  split; [exact EX|]. split; [reflexivity|].
   split.
   { exact (data_len_built E compress E_len cfg' (with_sample ctx) (eff_wcuts (sp_kind sp) wcuts)
-             (flat_sink (data_pieces E compress cfg' ctx (eff_wcuts (sp_kind sp) wcuts))) SC (sum_len_ne _)). }
+             (flat_sink (data_pieces E compress cfg' ctx (eff_wcuts (sp_kind sp) wcuts))) SC (flat_sink_sum_len _)). }
   split.
   { destruct (sp_kind sp) eqn:KD; cbn [opt_all]; try exact I. cbn [eff_wcuts] in WW. rewrite WW. exact S3. }
   split; [exact S4|]. split; [exact S5|]. split; [exact S6|]. split; [exact S7|].
@@ -328,19 +328,19 @@ Definition phc_ctx (cfg : config) (ctx : cctx) : Prop :=
 Notation solid_of cfg ctx jobs := (build_solid E compress cfg ctx [] (solid_writes (map build_job jobs))).
 
 Lemma built_solid_writable cfg ctx pw inner : wf_ctx verify ctx pw -> phc_ctx cfg ctx ->
-  small_pieces E compress cfg ctx (solid_writes inner) -> Forall writable_normal inner ->
+  Forall writable_normal inner ->
   writable_solid (build_solid E compress cfg ctx [] (solid_writes inner)).
 Proof.
-  intros (K & _ & _) PH SM W.
+  intros (K & _ & _) PH W.
   assert (PI : forall c0, plain_inner c0 (solid_writes inner)).
   { intros c0 _ _. exists inner. split; [exact W|apply solid_writes_stream]. }
   destruct (Pipeline.encrypted cfg) eqn:EN.
   - destruct (PH EN) as (P1 & P2).
-    apply (build_solid_writable E compress E_len); [split; [exact K|split; assumption]|constructor|exact SM|apply PI].
+    apply (build_solid_writable E compress E_len); [split; [exact K|split; assumption]|constructor|apply PI].
   - replace (build_solid E compress cfg ctx [] (solid_writes inner))
       with (build_solid E compress cfg (with_sample ctx) [] (solid_writes inner))
       by (unfold build_solid, phsf_part; rewrite EN; reflexivity).
-    apply (build_solid_writable E compress E_len); [split; [exact K|split; reflexivity]|constructor|exact SM|apply PI].
+    apply (build_solid_writable E compress E_len); [split; [exact K|split; reflexivity]|constructor|apply PI].
 Qed.
 
 Lemma agree_solid s xs : Forall2 entry_same [RSolid s] xs -> exists s', xs = [RSolid s'] /\ solid_same s s'.
@@ -353,7 +353,7 @@ Theorem create_solid_split_extract : forall c o out order t pw jobs cfg ctx max 
   o_guarded o = true -> wf_tree t -> tree_ok t -> walk_order_ok c o t order ->
   Forall ExtractFacts.plain out -> out <> [] ->
   Forall2 carries jobs (create_from_tree c order t) -> Forall (wf_job pw) jobs -> Forall phc_job jobs ->
-  wf_ctx verify ctx pw -> phc_ctx cfg ctx -> small_pieces E compress cfg ctx (solid_writes (map build_job jobs)) ->
+  wf_ctx verify ctx pw -> phc_ctx cfg ctx ->
   Split.write_split max [map of_c (ser_solid (solid_of cfg ctx jobs))] = Ok parts ->
   Forall (fun f => Split.file_size f <= max /\ len (ser_pfile f) = Split.file_size f) parts /\
   exists raws s es,
@@ -368,10 +368,10 @@ Theorem create_solid_split_extract : forall c o out order t pw jobs cfg ctx max 
     tree_of c o out order (extract_all o out es (empty_dir out)) = expected c o order t /\
     snd (extract_run o out es (empty_dir out)) = true.
 Proof.
-  intros c o out order t pw jobs cfg ctx max parts G WF TOK WO OP ON Hc Hw Hp Hctx PH SM W.
+  intros c o out order t pw jobs cfg ctx max parts G WF TOK WO OP ON Hc Hw Hp Hctx PH W.
   set (inner := map build_job jobs) in *. set (s0 := build_solid E compress cfg ctx [] (solid_writes inner)) in *.
   assert (WN : Forall writable_normal inner).
-  { pose proof (create_names_nonempty c t WF TOK order) as Hn. clear W SM s0. unfold inner.
+  { pose proof (create_names_nonempty c t WF TOK order) as Hn. clear W s0. unfold inner.
     induction Hc as [|j e jobs es [a Ha] _ IH]; [constructor|].
     inversion Hw; subst. inversion Hn; subst. inversion Hp; subst. cbn [map]. constructor; [|apply IH; assumption].
     apply (built_writable pw); try assumption; rewrite Ha; cbn [xspec sp_name sp_extra]; [assumption|constructor]. }
@@ -459,7 +459,6 @@ Example split_premises : exists parts sparts,
   wf_tree tx_tree /\ tree_ok tx_tree /\ (forall o, walk_order_ok tx_c o tx_tree tx_order) /\
   Split.write_split 150 tx_split_input = Ok parts /\ length parts = 7%nat /\
   wf_ctx tx_verify tx_ctx tx_pw /\ phc_ctx tx_cfg tx_ctx /\
-  small_pieces real_E_of tx_compress tx_cfg tx_ctx (solid_writes (map (build_job real_E_of tx_compress) tx_jobs)) /\
   Split.write_split 300 [map of_c (ser_solid tx_solid)] = Ok sparts /\ length sparts = 5%nat.
 Proof.
   destruct transport_premises as (P1 & P2 & _ & P4 & P5 & P6 & P7 & _).
@@ -472,7 +471,7 @@ Proof.
   split; [reflexivity|]. split; [vm_compute in W; injection W as <-; reflexivity|].
   split; [split; [vm_compute; reflexivity|split; vm_compute; reflexivity]|].
   split; [intros _; split; vm_compute; reflexivity|].
-  split; [small_tac|]. split; [reflexivity|]. vm_compute in WS. injection WS as <-. reflexivity.
+  split; [reflexivity|]. vm_compute in WS. injection WS as <-. reflexivity.
 Qed.
 
 (* the whole chain evaluated in the kernel on that tree: create, split at 150 bytes, serialise the 7 part files, read the
